@@ -371,28 +371,43 @@ fn fam_purity(tier: &str) -> Report {
         let o = std::process::Command::new(&exe).args(["expand", &k.to_string(), input]).output().unwrap();
         String::from_utf8_lossy(&o.stdout).trim().to_string()
     };
-    for k in [0usize, 1] {
-        let base: Vec<String> = corpus.iter().map(|c| fresh(c, k)).collect();
-        let hist: Vec<Vec<String>> = std::thread::spawn({
-            let corpus = corpus.clone();
-            move || {
-                let mut passes = Vec::new();
-                for pass in 0..3 {
-                    let mut v = vec![String::new(); corpus.len()];
-                    let order: Vec<usize> = if pass == 1 { (0..corpus.len()).rev().collect() } else { (0..corpus.len()).collect() };
-                    for i in order { v[i] = format!("{:?}", expand(&corpus[i], k)); }
-                    passes.push(v);
-                }
-                passes
+    // (input, macro kind): every corpus input under join / try_join, and inputs that carry options under the kinds the
+    // options are meant for, so that a sync expansion is followed by an async one with async-only options and vice versa
+    let mut items: Vec<(String, usize)> = Vec::new();
+    for c in &corpus { for k in [0usize, 1] { items.push((c.clone(), k)); } }
+    let async_kinds: Vec<usize> = (0..8).filter(|&k| KINDS[k].1).collect();
+    for &k in &async_kinds {
+        items.push(("futures_crate_path(::futures) a |> f, b ~|> g".to_string(), k));
+        items.push(("custom_joiner(j) futures_crate_path(::my::futures) transpose_results(false) lazy_branches(true) a, b".to_string(), k));
+    }
+    for k in 0..8 {
+        items.push(("custom_joiner(j) a |> f, b ~|> g".to_string(), k));
+        items.push(("lazy_branches(true) transpose_results(true) a, b".to_string(), k));
+    }
+    // sync and async kinds alternate in the history
+    let mut order0: Vec<usize> = (0..items.len()).collect();
+    order0.sort_by_key(|&i| (i % 7, i));
+    let base: Vec<String> = items.iter().map(|(c, k)| fresh(c, *k)).collect();
+    let hist: Vec<Vec<String>> = std::thread::spawn({
+        let items = items.clone();
+        let order0 = order0.clone();
+        move || {
+            let mut passes = Vec::new();
+            for pass in 0..3 {
+                let mut v = vec![String::new(); items.len()];
+                let order: Vec<usize> = match pass { 0 => (0..items.len()).collect(), 1 => (0..items.len()).rev().collect(), _ => order0.clone() };
+                for i in order { v[i] = format!("{:?}", expand(&items[i].0, items[i].1)); }
+                passes.push(v);
             }
-        }).join().unwrap();
-        for (i, c) in corpus.iter().enumerate() {
-            let same = hist.iter().all(|p| p[i] == base[i]);
-            r.check(same, &format!("[{}] {}", KINDS[k].0, c), "the expansion depends on which other inputs were expanded before it in the same thread (differs from a fresh process)");
+            passes
         }
+    }).join().unwrap();
+    for (i, (c, k)) in items.iter().enumerate() {
+        let same = hist.iter().all(|p| p[i] == base[i]);
+        r.check(same, &format!("[{}] {}", KINDS[*k].0, c), "the expansion depends on which other inputs were expanded before it in the same thread (differs from a fresh process)");
     }
     r.exhaustive = false;
-    r.notes.push(format!("{} repetitions interleaved with other inputs + 4 threads x 4 expansions per (input, kind); history independence: {} inputs x 2 kinds, 3 orders vs a fresh process each", reps, corpus.len()));
+    r.notes.push(format!("{} repetitions interleaved with other inputs + 4 threads x 4 expansions per (input, kind); history independence: {} (input, macro kind) pairs incl. option-carrying inputs under all kinds, 3 orders vs a fresh process each", reps, items.len()));
     r
 }
 
